@@ -204,7 +204,7 @@ func c07Dispatch(c *Ctx, a *sketchAnchors, eg *encGlobals) {
 			features = append(features, g.Name())
 		}
 	}
-	loop := c.P.DeclaredMethod(a.DDSketch, "decodeAndMergeWith")
+	loop := c.blockLoop(a)
 	loopArms := map[string]bool{}
 	typeArms := map[string]bool{}
 	if c.mustFunc(rule, loop, "decodeAndMergeWith") {
@@ -422,7 +422,7 @@ func wireGrammarRules(c *Ctx, a *sketchAnchors, rule string) {
 		}
 	}
 	// zero-count arm of the block loop
-	if f := c.P.DeclaredMethod(a.DDSketch, "decodeAndMergeWith"); f != nil {
+	if f := c.blockLoop(a); f != nil {
 		paths, _ := exec(c, f, nil, 2)
 		best := ""
 		found := false
